@@ -252,7 +252,7 @@ def main(ctx):
             'PathConfineFS', f'fs_w_{wit}', fs_consts(3, 3, ALLOPS, rule='strip'),
             fsdefs(rp[:4], ['a', '/'], 'TreesAll'), [wit], view=True,
             workers=2))
-    nsim = 100 if quick else 1500
+    nsim = 80 if quick else 1500
     for bias in ('all', 'ok'):
         def sim(bias=bias):
             d = tlc.workdir(f'c13_sim_{bias}_out')
@@ -658,7 +658,7 @@ def replay_fs(ctx, pc, results, rule, quick):
         # requests that would close a symbolic-link cycle (not explored
         # further by the model): replayed under the monitor alone
         loops = {json.dumps(x) for x in printed_blocks(res, 'LOOP')}
-        for x in sorted(loops)[::2 if quick else 1]:
+        for x in sorted(loops)[::3 if quick else 1]:
             hist, it = json.loads(x)
             script = [conv_req(h) for h in hist]
             init = tree_from_model(pc.model_tree(it))
@@ -862,8 +862,8 @@ def replay_dl(ctx, pc, results, quick):
             if r['escapes'] or r['outside']:
                 note_dl(pc, world, found, cache, 'get',
                         {'dest': 'dir', 'cont': True}, hist, r, top, prio=0)
-        for name, mode, cap in (('scp sink (exhaustive + table)', 'scp', 320),
-                                ('get (table)', 'get', 320)):
+        for name, mode, cap in (('scp sink (exhaustive + table)', 'scp', 260),
+                                ('get (table)', 'get', 260)):
             cases = [c[0] for c in printed_blocks(results[name], 'CASE')]
             ctx.require(len(cases) > 50, f'{name}: no case table')
             cases.sort(key=lambda c: json.dumps(c, sort_keys=True))
